@@ -787,6 +787,10 @@ var vrtIntrinsics = map[string]intrinsicFn{
 		sub := a[0].(string)
 		mx := 0
 		for _, c := range ex.allClosures {
+			sig := c.fn.Signature
+			if sig.Params().Len() != 0 || sig.Results().Len() != 2 {
+				continue // only backward-rule closures: func() (Tensor, error)
+			}
 			if c.fn.Pkg != nil && strings.Contains(c.fn.Pkg.Pkg.Path(), sub) && c.calls > mx {
 				mx = c.calls
 			}
@@ -825,6 +829,9 @@ var vrtIntrinsics = map[string]intrinsicFn{
 	},
 	"Nm": func(ex *Exec, _ *ssa.Function, a []Value, _ ssa.Instruction) Value {
 		return nameOf(ex, a)
+	},
+	"TimedOK": func(ex *Exec, _ *ssa.Function, a []Value, _ ssa.Instruction) Value {
+		return true
 	},
 	"Concretize": func(ex *Exec, _ *ssa.Function, a []Value, _ ssa.Instruction) Value {
 		return ex.concInt(a[0], "Concretize")
